@@ -808,7 +808,13 @@ pub fn selected_pub(tier: Tier) -> Vec<Prog> {
 fn selected(tier: Tier) -> Vec<Prog> {
     let mut v: Vec<Prog> = match tier {
         // all members with <= 4 nodes, and the 5-node members that contain a branch list
-        Tier::Quick => programs(5).into_iter().filter(|p| p.nodes() <= 4 || (p.has_branches() && p.steps.len() <= 2)).collect(),
+        Tier::Quick => programs(5)
+            .into_iter()
+            .filter(|p| {
+                p.nodes() <= 4
+                    || (p.has_branches() && (p.steps.len() == 1 || (p.steps.len() == 2 && p.steps.iter().any(|(c, s)| *c == Cond::None && *s == StepK::Leaf))))
+            })
+            .collect(),
         Tier::Thorough => programs(6),
     };
     v.extend(loop_programs(tier));
@@ -861,7 +867,7 @@ impl Check for C04 {
             ],
             budget_s: tier.pick(55, 1500),
             exhaustive_when_uncapped: true,
-            bounds: json!({"nodes": tier.pick("<= 4, and 5 with a branch list in <= 2 steps", "<= 6"), "deviations_when_three_regions": tier.pick(2, 4), "preemptions_threaded": tier.pick(1, 2)}),
+            bounds: json!({"nodes": tier.pick("<= 4, and 5 with a branch list in one step or beside a plain leaf step", "<= 6"), "deviations_when_three_regions": tier.pick(2, 4), "preemptions_threaded": tier.pick(1, 2)}),
         }
     }
     fn items(&self, tier: Tier) -> Vec<Value> {
